@@ -118,6 +118,15 @@ try:
                 ts = [e[2] for e in LOG if e[0] == "on_iteration"]
                 if any(b < a for a, b in zip(ts, ts[1:])): fail(f"elapsed times not non-decreasing: {ts}", layout)
             elif kinds: fail(f"callbacks {kinds} although no mode is selected", layout)
+    # a namespace package (no __init__.py) whose parent directory is on sys.path twice: every class still once
+    nsroot = os.path.join(root, "nsparent"); os.makedirs(os.path.join(nsroot, "c14ns"))
+    open(os.path.join(nsroot, "c14ns", "only.py"), "w").write("import sys\nLOG = sys.modules['__main__'].LOG\nclass Alpha:\n    MODE_NAME = 'Alpha'\n    def __init__(self, *a, **k): LOG.append(('init', 'Alpha'))\n")
+    sys.path.insert(0, nsroot); sys.path.insert(0, nsroot); importlib.invalidate_caches()
+    for fms in (False, True):
+        set_fms(fms); del LOG[:]; total += 1
+        try: sel = AutonomousModeSelector("c14ns")
+        except Exception as e: fail(f"a healthy namespace package listed twice on sys.path raised {e!r} (fms={fms})", {"namespace": True})
+        if [x for x in LOG if x[0] == "init"] != [("init", "Alpha")] or list(sel.modes) != ["Alpha"]: fail(f"namespace package: instantiated {LOG}, offered {list(sel.modes)} (fms={fms})", {"namespace": True})
 finally:
     shutil.rmtree(root, ignore_errors=True)
     set_fms(False)
